@@ -4,7 +4,13 @@ UdpJob.tla  : the owned UDP engine, one action per ownership step; TLC exhaustiv
               with the inline pass, mixed batch+portable readers) + regression configs in which the
               scrub / rawSA reset / staged-is-terminal rules are switched off (each must break a
               property invariant on the model alone -- the invariants are not vacuous).
-TcpConn.tla : one stream connection, pipelined frames, job class swap, staged frames and flush.
+TcpConn.tla : one stream connection, pipelined frames, job class swap, staged frames and flush; reply SIZE CLASSES
+              (small staged / large after a flush / huge written on its own, after what is staged has left) and the
+              job-owned edns writer slot (ReplyOptIsOwn); regression configs: no flush before a direct write, slot not
+              zeroed.  Its ScriptSpec graph is walked for every size-class / EDNS order and chunking of up to three
+              pipelined hits; each is replayed on a real TCP and a real DoT connection.
+UdpSlab.tla : the slab record carries the edns writer slot (ew) and whose cookie the staged bytes hold (txck);
+              ReplyOptIsOwn at every send, on the model and on the recorded walk (Trace_UdpJob_opt.cfg).
 Engine      : the real server.Server on loopback UDP+TCP sockets with tiny ingress limits, real chain
               up to the cache + scripted tail whose answers encode the question; concurrent clients
               check byte provenance of everything they receive; the verif trace hook (hooks/
@@ -15,6 +21,8 @@ Engine      : the real server.Server on loopback UDP+TCP sockets with tiny ingre
 import json
 import os
 import re
+import threading
+from concurrent.futures import ThreadPoolExecutor
 
 import vf
 
@@ -67,6 +75,71 @@ def engine_configs(tier, seed):
     return cfgs
 
 
+# engine runs that also play the TLC-enumerated stream scripts on plain TCP (every run does the hygiene sweep)
+SCRIPT_RUNS = {"quick": ("batch-w1",), "thorough": ("batch-w1", "portable-w1", "batch-w2-s2")}
+
+
+def delivery_projections(nodes, edges, inits):
+    """Every behaviour of the dumped graph projected on its Deliver steps: the set of tuples of
+    (size class, EDNS shape, delivered while the connection was blocked) -- all of them, not a path cover."""
+    out_edges = {}
+    for src, dst, label in edges:
+        out_edges.setdefault(src, []).append((dst, label))
+    memo, onstack = {}, set()
+
+    def suffixes(n):
+        if n in memo:
+            return memo[n]
+        if n in onstack:            # a cycle adds no delivery
+            return {()}
+        onstack.add(n)
+        acc = {()}
+        for dst, label in out_edges.get(n, ()):
+            sub = suffixes(dst)
+            if label.startswith("Deliver"):
+                st = nodes[n]
+                f = st["net"][0]
+                head = (f["sz"], f["opt"], st["pc"] == "blocked")
+                acc |= {(head,) + t for t in sub}
+            else:
+                acc |= sub
+        onstack.discard(n)
+        memo[n] = acc
+        return acc
+
+    import sys
+    sys.setrecursionlimit(max(10000, sys.getrecursionlimit()))
+    res = set()
+    for i in inits:
+        for t in suffixes(i):
+            if t:
+                res.add(((t[0][0], t[0][1], False),) + t[1:])     # the first frame never waits for a reply
+    return res
+
+
+def stream_scripts(ctx):
+    """Every size-class / EDNS order and chunking of up to NF pipelined hits, from the labelled state graph of
+    TcpConn.tla's ScriptSpec: a frame delivered while the connection sits in `blocked` (everything flushed, slab
+    returned) starts a new chunk that the client writes only after the earlier replies arrived; a frame delivered
+    at any other moment rides the same write as its predecessor."""
+    fams = [("MC_script_sizes.cfg", "sizes"), ("MC_script_opts.cfg", "opts")]
+    if ctx.tier == "thorough":
+        fams.append(("MC_script_all.cfg", "all"))
+    out, seen = [], set()
+    for cfg, fam in fams:
+        r, nodes, edges, inits = ctx.tlc_graph("TcpConn", "MC_TcpConn.tla", cfg, workers=2, timeout=900, heap="4g")
+        n0 = len(out)
+        for key in sorted(delivery_projections(nodes, edges, inits)):
+            if len(key) >= 2 and key not in seen:
+                seen.add(key)
+                out.append({"fam": fam, "frames": [{"kind": "hit", "sz": z, "opt": o, "brk": b} for z, o, b in key]})
+        ctx.log("TcpConn ScriptSpec %s: %d states, %d edges -> %d new scripts" % (cfg, len(nodes), len(edges), len(out) - n0))
+        if len(out) == n0:
+            raise vf.MachineryError("no stream script could be projected from %s" % cfg)
+    ctx.cov["replay"]["stream_scripts"] = {"scripts": len(out)}
+    return out
+
+
 def run_driver(ctx, pkg, test, inp, name, timeout):
     """go_driver, but an engine assertion that kills the test binary is a verdict, not machinery."""
     fin = os.path.join(ctx.scratch, "%s.in.json" % name)
@@ -99,8 +172,11 @@ def run_driver(ctx, pkg, test, inp, name, timeout):
     raise vf.MachineryError("driver %s produced no result (rc=%d)\n%s" % (test, rc, "\n".join(out.splitlines()[-80:])))
 
 
-UDP_INVARIANTS = ("ReplyIsOwn", "SilentStaysSilent", "AtMostOneSend", "OwnershipWalk", "LeaseBound", "AllHome")
+UDP_INVARIANTS = ("ReplyIsOwn", "ReplyOptIsOwn", "SilentStaysSilent", "AtMostOneSend", "OwnershipWalk", "LeaseBound", "AllHome")
 WHAT = {
+    "ReplyOptIsOwn": "a datagram left a slab with a COOKIE option that was not built from the client cookie of the packet in "
+                     "that slab's RX (the packet carried none, or a different one), or with an NSID / keepalive option the "
+                     "packet did not ask for: something of an earlier request that the job-owned edns writer slot kept",
     "ReplyIsOwn": "a datagram left a slab carrying bytes that were not produced for the packet in that slab's RX, "
                   "or addressed to somebody else than the packet's sender",
     "SilentStaysSilent": "a datagram was sent for a packet that was decided in silence (nothing was written for it in this lease)",
@@ -112,44 +188,90 @@ WHAT = {
 
 
 def model_runs(ctx):
+    """Exhaustive configurations (must pass) and regression configurations (a rule switched off: a named property
+    invariant must fail on the model alone -- the invariants are not vacuous).  The runs are independent of the
+    tree under test and of each other: a few at a time."""
     thorough = ctx.tier == "thorough"
-    # ---- UdpJob: exhaustive, faithful configurations --------------------------
-    for cfg in ("MC_portable.cfg", "MC_batch.cfg", "MC_mixed.cfg"):
-        ctx.tlc("UdpJob", "MC_UdpJob.tla", cfg, workers=4, timeout=900, heap="6g")
+    big = dict(workers=4, timeout=3000, heap="12g")
+    small = dict(workers=3, timeout=900, heap="6g")
+    jobs = []        # (module_dir, spec, cfg, kwargs, expected violated invariants or None)
+    for cfg in ("MC_portable.cfg", "MC_batch.cfg", "MC_mixed.cfg", "MC_opt.cfg"):
+        jobs.append(("UdpJob", "MC_UdpJob.tla", cfg, small, None))
     if thorough:
-        for cfg in ("MC_portable_panic.cfg", "MC_batch_cap4.cfg", "MC_batch_noinline.cfg", "MC_mixed3.cfg", "MC_portable_w2.cfg", "MC_batch_all.cfg"):
-            ctx.tlc("UdpJob", "MC_UdpJob.tla", cfg, workers=4, timeout=3000, heap="12g")
-    # ---- regression configs: the invariants are not vacuous -------------------
+        for cfg in ("MC_portable_panic.cfg", "MC_batch_cap4.cfg", "MC_batch_noinline.cfg", "MC_mixed3.cfg",
+                    "MC_portable_w2.cfg", "MC_batch_all.cfg", "MC_opt_c2.cfg", "MC_opt_batch.cfg"):
+            jobs.append(("UdpJob", "MC_UdpJob.tla", cfg, big, None))
     # (a stale staged length also reaches the nil burst of an overflow serve: ReleaseOnce is the same defect's
     # second symptom, and which invariant TLC's parallel BFS reports first at equal depth is not deterministic)
     regress = [("MC_regress_noscrub.cfg", ("ReplyIsOwn", "SilentStaysSilent", "ReleaseOnce")),
                ("MC_regress_norawsa.cfg", ("ReplyIsOwn",)),
-               ("MC_regress_both.cfg", ("SingleOwner", "AtMostOneSend", "ReleaseOnce"))]
+               ("MC_regress_both.cfg", ("SingleOwner", "AtMostOneSend", "ReleaseOnce")),
+               ("MC_regress_slotnotreset.cfg", ("ReplyOptIsOwn",))]
     if thorough:
         regress.append(("MC_regress_noscrub_batch.cfg", ("ReplyIsOwn", "SilentStaysSilent", "ReleaseOnce")))
+        regress.append(("MC_regress_slotnotreset_batch.cfg", ("ReplyOptIsOwn",)))
     for cfg, want in regress:
-        r = ctx.tlc("UdpJob", "MC_UdpJob.tla", cfg, workers=4, timeout=900, heap="6g", must_pass=False,
-                    tag="regression", count=False)
-        if r.violated not in want:
-            raise vf.MachineryError("regression config %s: expected one of %s to fail on the mutant model, got %r"
-                                    % (cfg, want, r.violated))
-        ctx._distinct.add("udpjob-regress:%s:%s" % (cfg, r.violated))
-    # ---- TcpConn ---------------------------------------------------------------
-    ctx.tlc("TcpConn", "MC_TcpConn.tla", "MC_quick.cfg", workers=4, timeout=900, heap="6g")
+        jobs.append(("UdpJob", "MC_UdpJob.tla", cfg, small, want))
+    for cfg in ("MC_quick.cfg", "MC_opt.cfg"):
+        jobs.append(("TcpConn", "MC_TcpConn.tla", cfg, small, None))
     if thorough:
-        ctx.tlc("TcpConn", "MC_TcpConn.tla", "MC_thorough.cfg", workers=4, timeout=3000, heap="12g")
-    r = ctx.tlc("TcpConn", "MC_TcpConn.tla", "MC_regress_noflushwait.cfg", workers=4, timeout=900, heap="6g",
-                must_pass=False, tag="regression", count=False)
-    if r.violated != "NothingHeldWhileBlocked":
-        raise vf.MachineryError("TcpConn regression config: expected NothingHeldWhileBlocked, got %r" % r.violated)
-    ctx._distinct.add("tcpconn-regress:noflushwait")
+        for cfg in ("MC_thorough.cfg", "MC_opt_thorough.cfg"):
+            jobs.append(("TcpConn", "MC_TcpConn.tla", cfg, big, None))
+    for cfg, want in (("MC_regress_noflushwait.cfg", ("NothingHeldWhileBlocked",)),
+                      ("MC_regress_directnoflush.cfg", ("WholeInOrderOnePerQuery",)),
+                      ("MC_regress_slotnotreset.cfg", ("ReplyOptIsOwn",))):
+        jobs.append(("TcpConn", "MC_TcpConn.tla", cfg, small, want))
+
+    def one(job):
+        d, spec, cfg, kw, want = job
+        if want is None:
+            return job, ctx.tlc(d, spec, cfg, count=False, **kw)
+        return job, ctx.tlc(d, spec, cfg, must_pass=False, tag="regression", count=False, **kw)
+
+    with ThreadPoolExecutor(max_workers=4 if not thorough else 3) as ex:
+        done = list(ex.map(one, jobs))
+    for (d, spec, cfg, kw, want), r in done:
+        if want is None:
+            ctx.cov["states"] += r.distinct
+            ctx.cov["transitions"] += r.generated
+            continue
+        if r.violated not in want:
+            raise vf.MachineryError("regression config %s/%s: expected one of %s to fail on the mutant model, got %r"
+                                    % (d, cfg, want, r.violated))
+        ctx._distinct.add("%s-regress:%s:%s" % (d.lower(), cfg, r.violated))
 
 
-def validate_udp_trace(ctx, trace, prefix=""):
+def slab_reuse_stats(lines):
+    """How often, per recorded run, a slab answered a cookie-less OPT packet (or one without OPT) right after it had
+    answered a packet that carried a client cookie: the reuse on which a slot that is not zeroed shows."""
+    stats, run, last = {}, "?", {}
+    for ln in lines:
+        if '"ev":"reset"' in ln:
+            run, last = json.loads(ln).get("cfg_name", "?"), {}
+            stats.setdefault(run, {"cookie_then_plain": 0, "cookie_then_none": 0, "sends_with_cookie": 0})
+            continue
+        if '"ev":"send' not in ln:
+            continue
+        e = json.loads(ln)
+        j, o = e.get("j"), e.get("rxopt", "")
+        st = stats.setdefault(run, {"cookie_then_plain": 0, "cookie_then_none": 0, "sends_with_cookie": 0})
+        if o == "cookie":
+            st["sends_with_cookie"] += 1
+        if last.get(j) == "cookie" and o == "plain":
+            st["cookie_then_plain"] += 1
+        if last.get(j) == "cookie" and o == "none":
+            st["cookie_then_none"] += 1
+        if o:
+            last[j] = o
+    return stats
+
+
+def validate_udp_trace(ctx, trace, prefix="", extended=False):
     if not os.path.exists(trace):
         return
     lines = open(trace).read().splitlines()
-    ok, r = ctx.tlc_trace("UdpJob", "Trace_UdpJob.tla", "Trace_UdpJob.cfg", trace, timeout=1800)
+    ok, r = ctx.tlc_trace("UdpJob", "Trace_UdpJob.tla", "Trace_UdpJob_opt.cfg" if extended else "Trace_UdpJob.cfg",
+                          trace, timeout=1800)
     matched = max(0, r.depth - 1)
     drift = 0
     for m in re.finditer(r'<<"drift", (\d+), "slabs", (\d+)>>', r.out):
@@ -195,45 +317,128 @@ def validate_udp_trace(ctx, trace, prefix=""):
                                 % (matched, len(lines), "\n".join(r.out.splitlines()[-30:])))
     runs = sum(1 for ln in lines if '"ev":"reset"' in ln)
     ctx.cov["traces_validated_against_impl"] += runs
+    if extended:
+        reuse = slab_reuse_stats(lines)
+        ctx.cov["replay"]["trace_udpjob"]["slab_reuse"] = reuse
+        for run, st in reuse.items():
+            if st["cookie_then_plain"] < 3 or st["sends_with_cookie"] < 10:
+                raise vf.MachineryError("engine run %s never recycled a slab from a cookie request to a cookie-less OPT "
+                                        "request (ReplyOptIsOwn would be vacuous): %s" % (run, st))
     if drift:
         ctx.cov["drift"] += drift
         ctx.log("DRIFT: %d recorded steps differ from what UdpSlab.tla predicts (no property predicate failed)" % drift)
 
 
-def validate_tcp_trace(ctx, trace, prefix=""):
+TCP_WHAT = {
+    "WholeInOrderOnePerQuery": "replies are not whole, one per answerable query, in query order, each of the size class its "
+                               "question asks for",
+    "NothingAfterFatal": "a query behind a frame that ends the session was answered",
+    "ReplyOptIsOwn": "a reply carries a COOKIE option that was not built from its own query's client cookie (the query "
+                     "carried none, or a different one), or an NSID / keepalive option its query did not ask for: "
+                     "something of a request served earlier on the same job",
+}
+WANT_ORDERS = ("small,huge", "huge,small", "small,huge,small", "huge,huge", "large,large", "small,large", "huge|small",
+               "small|huge")
+
+
+def stream_order_stats(lines):
+    """Per transport: which size-class orders (',' = same write, '|' = after the server blocked) and which EDNS
+    orders were played by a scripted connection and read to the end."""
+    st = {}
+    for ln in lines:
+        o = json.loads(ln)
+        proto = o["conn"].split("/")[1] if o.get("conn", "").count("/") >= 2 else "?"
+        d = st.setdefault(proto, {"scripted": 0, "scripted_done": 0, "orders": set(), "opt_orders": set(), "sweeps": 0,
+                                  "big_frames": 0})
+        d["big_frames"] += sum(1 for z, k in zip(o.get("rsz", []), o.get("rok", [])) if k and z != "small")
+        lab = o.get("script", "")
+        if lab.startswith("sweep/") and o.get("done"):
+            d["sweeps"] += 1
+        if not lab.startswith("script/"):
+            continue
+        d["scripted"] += 1
+        if not o.get("done"):
+            continue
+        d["scripted_done"] += 1
+        sz, op, brk = o["sizes"], o["opts"], o["brk"]
+        for a in range(len(sz)):
+            for b in range(a + 1, len(sz) + 1):
+                key = sz[a]
+                okey = op[a]
+                for i in range(a + 1, b):
+                    key += ("|" if brk[i] else ",") + sz[i]
+                    okey += ("|" if brk[i] else ",") + op[i]
+                if b - a >= 2:
+                    d["orders"].add(key)
+                    d["opt_orders"].add(okey)
+    return st
+
+
+def validate_tcp_trace(ctx, trace, prefix="", extended=False, scripted=()):
     if not os.path.exists(trace):
         return
     lines = open(trace).read().splitlines()
     if not lines:
         return
-    ok, r = ctx.tlc_trace("TcpConn", "Trace_TcpConn.tla", "Trace_TcpConn.cfg", trace, timeout=900)
+    ok, r = ctx.tlc_trace("TcpConn", "Trace_TcpConn.tla", "Trace_TcpConn_opt.cfg" if extended else "Trace_TcpConn.cfg",
+                          trace, timeout=900)
     matched = max(0, r.depth - 1)
     ctx.cov["replay"]["trace_tcpconn"] = {"connections": len(lines), "matched": matched, "wall_s": round(r.wall, 1)}
     ctx.log("Trace_TcpConn: %d of %d connections, violated=%s" % (matched, len(lines), r.violated))
-    if r.violated in ("WholeInOrderOnePerQuery", "NothingAfterFatal"):
+    if r.violated in TCP_WHAT:
         bad = json.loads(lines[matched - 1]) if 0 < matched <= len(lines) else {}
         ctx.violation("trace/tcp/" + r.violated,
-                      "%s%s is false on what a client of the real TCP engine received (connection %s): replies are not "
-                      "whole, one per answerable query, in query order" % (prefix, r.violated, bad.get("conn")),
+                      "%s%s is false on what a client of the real stream engine received (connection %s, %s): %s"
+                      % (prefix, r.violated, bad.get("conn"), bad.get("script"), TCP_WHAT[r.violated]),
                       {"driver": "Trace_TcpConn", "connection": bad, "seed": ctx.seed})
         return
     if not ok:
         raise vf.MachineryError("Trace_TcpConn did not consume the trace (%d of %d)\n%s"
                                 % (matched, len(lines), "\n".join(r.out.splitlines()[-30:])))
     ctx.cov["traces_validated_against_impl"] += len(lines)
+    if extended:
+        st = stream_order_stats(lines)
+        info = {p: dict(d, orders=sorted(d["orders"]), opt_orders=len(d["opt_orders"])) for p, d in st.items()}
+        ctx.cov["replay"]["trace_tcpconn"]["size_class_orders"] = info
+        for proto in scripted:
+            d = st.get(proto)
+            if d is None:
+                raise vf.MachineryError("no %s connection was recorded although scripts were sent" % proto)
+            missing = [o for o in WANT_ORDERS if o not in d["orders"]]
+            if missing or d["scripted_done"] * 10 < d["scripted"] * 9 or d["sweeps"] < 2 \
+                    or "cookie,plain" not in d["opt_orders"] or "cookie|plain" not in d["opt_orders"]:
+                raise vf.MachineryError("the scripted %s connections did not cover what they are for: %d of %d read to the "
+                                        "end, %d sweeps, size-class orders missing: %s" % (
+                                            proto, d["scripted_done"], d["scripted"], d["sweeps"], missing))
+            for o in d["orders"]:
+                ctx._distinct.add("stream-order:%s:%s" % (proto, o))
 
 
-def engines(ctx, prefix="", only=None, secure=True):
+def engines(ctx, prefix="", only=None, secure=True, extended=None, scripts=None):
+    """The engine load driver (and, with secure, the encrypted legs), then the recorded walks through the trace specs.
+    extended (default: only when the property under check is C10) adds what is C10's alone: the OPT provenance
+    predicate on every reply, the hygiene sweep, the TLC-enumerated stream scripts and ReplyOptIsOwn on the traces;
+    another property borrowing the driver (C11's engine walk) keeps its own judgement."""
+    if extended is None:
+        extended = ctx.pid == "C10"
+    if extended and scripts is None:
+        scripts = stream_scripts(ctx)
     trace = os.path.join(ctx.scratch, "udpjob_trace.ndjson")
     tcptrace = os.path.join(ctx.scratch, "tcpconn_trace.ndjson")
     for p in (trace, tcptrace):
         if os.path.exists(p):
             os.remove(p)
     runs = []
+    scripted = set()
     for cfg in engine_configs(ctx.tier, ctx.seed):
         if only is not None and cfg["name"] not in only:
             continue
         cfg = dict(cfg, traceOut=trace, tcpTraceOut=tcptrace)
+        if extended:
+            cfg.update(optCheck=True, sweep=1 if ctx.tier != "thorough" else 2, scriptPar=4, scripts=[])
+            if cfg["name"] in SCRIPT_RUNS.get(ctx.tier, SCRIPT_RUNS["quick"]):
+                cfg["scripts"] = scripts
+                scripted.add("tcp")
         res = run_driver(ctx, "./c10", "TestEngineLoad", cfg, "eng_" + cfg["name"], timeout=900)
         if res is None:
             continue
@@ -241,56 +446,73 @@ def engines(ctx, prefix="", only=None, secure=True):
         c = res.get("counters", {})
         info = {k: c[k] for k in sorted(c)}
         info["skipped"] = res.get("skipped", [])
+        info["drift_notes"] = res.get("drift_notes", [])
         ctx.cov["replay"]["engine_" + cfg["name"]] = info
         runs.append((cfg, res))
-        ctx.log("engine %s: udp recv=%d tcp frames=%d/%d trace=%d lines slabs=%d violations=%d" % (
+        ctx.log("engine %s: udp recv=%d tcp frames=%d/%d (large/huge ok=%d) trace=%d lines slabs=%d violations=%d" % (
             cfg["name"], c.get("udp_datagrams_received", 0), c.get("tcp_answered", 0), c.get("tcp_expected", 0),
-            c.get("trace_lines", 0), c.get("trace_slabs", 0), len(res.get("violations", []))))
+            c.get("tcp_big_replies_ok", 0), c.get("trace_lines", 0), c.get("trace_slabs", 0), len(res.get("violations", []))))
+        for note in res.get("drift_notes", [])[:2]:
+            ctx.log("DRIFT (%s): %s" % (cfg["name"], note))
         if res.get("skipped"):
             raise vf.MachineryError("engine run %s skipped: %s" % (cfg["name"], res["skipped"][:3]))
-        if not res.get("violations") and (c.get("udp_datagrams_received", 0) < 50 or c.get("tcp_answered", 0) < 10):
+        if not res.get("violations") and (c.get("udp_datagrams_received", 0) < 50 or c.get("tcp_answered", 0) < 10
+                                          or c.get("tcp_big_replies_ok", 0) < 8):
             raise vf.MachineryError("engine run %s is vacuous: %s" % (cfg["name"], info))
     if secure:
-        secure_legs(ctx, tcptrace, prefix)
-    validate_udp_trace(ctx, trace, prefix)
-    validate_tcp_trace(ctx, tcptrace, prefix)
+        if secure_legs(ctx, tcptrace, prefix, extended, scripts):
+            scripted.add("dot")
+    validate_udp_trace(ctx, trace, prefix, extended)
+    validate_tcp_trace(ctx, tcptrace, prefix, extended, sorted(scripted) if not ctx.violations else ())
     return runs
 
 
-def secure_legs(ctx, tcptrace, prefix=""):
+def secure_legs(ctx, tcptrace, prefix="", extended=False, scripts=None):
     """DoT / DoH / DoH3 / DoQ on loopback under a self-generated certificate; a leg that cannot be
-    brought up offline is recorded as skipped in the evidence (never faked)."""
+    brought up offline is recorded as skipped in the evidence (never faked).  Returns whether the
+    stream scripts were played on DoT."""
     thorough = ctx.tier == "thorough"
     inp = {"name": "secure", "clients": 3 if not thorough else 8, "each": 24 if not thorough else 120,
            "tcpTraceOut": tcptrace}
+    if extended:
+        inp.update(optCheck=True, sweep=1, scriptPar=4, scripts=scripts or [])
     res = run_driver(ctx, "./c10", "TestSecureTransports", inp, "secure", timeout=900)
     if res is None:
-        return
+        return False
     ctx.take_driver_result(res, prefix)
     c = res.get("counters", {})
     skipped = res.get("skipped", [])
+    if any(s.startswith("all: priming") for s in skipped):
+        raise vf.MachineryError("secure transports: %s" % skipped[:3])
     legs = {}
     for leg in ("dot", "doh", "doh3", "doq"):
         n = c.get(leg + "_answered", 0)
         legs[leg] = {"answered": n, "sent": c.get(leg + "_expected", 0) or c.get(leg + "_sent", 0),
                      "silent_ok": c.get(leg + "_silent_ok", 0), "errors": c.get(leg + "_errors", 0),
+                     "large_huge_ok": c.get(leg + "_big_replies_ok", 0) if leg != "dot" else c.get("stream_big_replies_ok", 0),
                      "status": "exercised" if n > 0 else "skipped"}
+        if extended and n > 0 and not res.get("violations") and legs[leg]["large_huge_ok"] < 1:
+            raise vf.MachineryError("secure leg %s carried no large/huge reply: %s" % (leg, legs[leg]))
     ctx.cov["replay"]["secure_transports"] = {"legs": legs, "skipped": skipped,
-                                              "drift_notes": res.get("drift_notes", [])}
+                                              "drift_notes": res.get("drift_notes", []),
+                                              "large_huge_replies_ok": c.get("stream_big_replies_ok", 0)}
     ctx.log("secure transports: %s skipped=%s" % (
         {k: "%d/%d" % (v["answered"], v["sent"]) for k, v in legs.items()}, skipped))
     for leg, v in legs.items():
         if v["status"] == "skipped":
             ctx.assumptions.append("transport leg %s could not be exercised offline in this run: SKIPPED (%s)"
                                    % (leg, "; ".join(s for s in skipped if s.startswith(leg) or s.startswith("all")) or "no answers"))
+    return bool(extended and scripts and legs["dot"]["status"] == "exercised" and not res.get("violations"))
 
 
 def run(ctx, replay):
-    ctx.cov["rule"] = ("states/transitions = TLC exhaustive runs of UdpJob.tla (portable, batch+inline, mixed readers) and "
-                       "TcpConn.tla; evaluations = packets/connections whose every received byte was checked for provenance "
-                       "by its client; distinct = packet kind x transport x ending classes; traces = engine runs whose "
-                       "recorded ownership walk (verif trace hook) was validated by Trace_UdpJob.tla + TCP connections "
-                       "validated by Trace_TcpConn.tla")
+    ctx.cov["rule"] = ("states/transitions = TLC exhaustive runs of UdpJob.tla (portable, batch+inline, mixed readers, EDNS "
+                       "shapes over the job-owned writer slot) and TcpConn.tla (size classes, writer slot); evaluations = "
+                       "packets/connections whose every received byte was checked for provenance by its client (id, question, "
+                       "rdata = f(question), OPT options only from the own query); distinct = packet kind x transport x ending "
+                       "classes + size-class orders replayed per stream transport; traces = engine runs whose recorded "
+                       "ownership walk (verif trace hook) was validated by Trace_UdpJob.tla + stream connections validated by "
+                       "Trace_TcpConn.tla")
     ctx.assumptions += [
         "the kernel's recvmmsg/sendmmsg ordering and loopback delivery are trusted",
         "DoT/DoH/DoH3/DoQ legs run on loopback under a self-generated certificate; a leg whose listener does not come "
@@ -298,8 +520,29 @@ def run(ctx, replay):
         "send the panic-ahead-of-recovery kind (the DoQ stream goroutine has no panic guard of its own)",
         "the mixed (recvmmsg fallback) shape is reached by starting the portable reader next to the batch reader "
         "through the overlay shim, as udpBatchReader.permanentRerr would after a permanent errno",
-        "release() and serveInline's transition+count are single steps in UdpJob.tla",
+        "release() and serveInline's transition+count are single steps in UdpJob.tla; the edns handler's use of the "
+        "job-owned writer slot (fill, build the OPT, zero) is one step inside the serve that owns the slab",
+        "a scripted stream chunk is one write() of a few hundred bytes on loopback: the engine's read is taken to return "
+        "it whole (the frames of a chunk are in the fill buffer together)",
+        "a reply OPT with no option and the server's own size in answer to a query without OPT holds nobody else's bytes: "
+        "counted as drift (opt_in_reply_to_optless_query), not judged",
     ]
     require_hook()
-    model_runs(ctx)
-    engines(ctx)
+    scripts = stream_scripts(ctx)
+    # the model runs do not depend on the tree under test: they go on beside the engine drivers
+    box = {}
+
+    def models():
+        try:
+            model_runs(ctx)
+        except BaseException as ex:     # re-raised on the main thread
+            box["err"] = ex
+
+    th = threading.Thread(target=models, name="c10-models")
+    th.start()
+    try:
+        engines(ctx, scripts=scripts)
+    finally:
+        th.join()
+    if "err" in box:
+        raise box["err"]
